@@ -333,7 +333,10 @@ def verify(contract: Contract, src: SourceIndex = None, contracts=None, timeout_
         I.bind_args(fn_run, env, list(args), dict(kwargs))
         names = dict(env.vars)
         A = Args({k: _lower_arg(v) for k, v in names.items()})
-        pre = contract.requires(A)
+        try:
+            pre = contract.requires(A)
+        except KeyError as e:
+            raise Unsupported(f"the contract refers to parameter {e} which the function no longer has (signature changed)")
         if isinstance(pre, dict):
             pre = z3.And(*pre.values()) if pre else z3.BoolVal(True)
         p.assume(pre)
@@ -390,6 +393,9 @@ def verify(contract: Contract, src: SourceIndex = None, contracts=None, timeout_
             res.unsupported.append(f"result cannot be lowered: {e}")
         except Unsupported as e:
             res.unsupported.append(str(e))
+        except KeyError as e:
+            # the contract names a parameter the function no longer has: its signature changed, the contract does not apply
+            res.unsupported.append(f"the contract refers to parameter {e} which the function no longer has (signature changed)")
         for ob in p.obligations:
             res.add(ob)
     res.time = time.time() - t0
